@@ -130,6 +130,10 @@ GUARD_EXPRS = [
     ("pyscript.g == '1' and pyscript.v != '3'", lambda w, ev: w.get("pyscript.g") == "1" and ev.get("v_new", w.get("pyscript.v")) != "3"),
     ("pyscript.v.old == '1'", lambda w, ev: ev.get("v_old") == "1"),
     ("pyscript.nosuch == None and pyscript.g != '0'", lambda w, ev: w.get("pyscript.g") != "0"),
+    # truthiness of non-bool values: 0 / '' / None are falsy, 1 / 'text' truthy
+    ("int(pyscript.g)", lambda w, ev: bool(int(w.get("pyscript.g")))),
+    ("pyscript.g.missing_attr", lambda w, ev: False),
+    ("pyscript.g", lambda w, ev: bool(w.get("pyscript.g"))),
 ]
 
 BASE = l3.BASE_DT  # 2024-06-12 10:00:00 local
